@@ -548,10 +548,32 @@ def local_defs(fi):
     return {k: v for k, v in val.items() if count.get(k) == 1 and k not in params}
 
 
-def resolved(fi, expr, repo=None, depth=6):
+def path_defs(path, keep=()):
+    """definitions in force at the end of a traced path: name -> value AST (the last plain assignment on the path;
+    a name that is assigned from itself, e.g. b = b.lower(), is left alone)"""
+    out = {}
+    for s in path.stmts():
+        if isinstance(s, ast.Assign) and len(s.targets) == 1:
+            t = s.targets[0]
+            pairs = []
+            if isinstance(t, ast.Name):
+                pairs = [(t.id, s.value)]
+            elif isinstance(t, (ast.Tuple, ast.List)) and isinstance(s.value, (ast.Tuple, ast.List)) and len(t.elts) == len(s.value.elts):
+                pairs = [(e.id, v) for e, v in zip(t.elts, s.value.elts) if isinstance(e, ast.Name)]
+            for name, v in pairs:
+                if name in keep or any(isinstance(n, ast.Name) and n.id == name for n in ast.walk(v)):
+                    out.pop(name, None)
+                    continue
+                out[name] = v
+        elif isinstance(s, ast.AugAssign) and isinstance(s.target, ast.Name):
+            out.pop(s.target.id, None)
+    return out
+
+
+def resolved(fi, expr, repo=None, depth=6, defs=None):
     """`expr` with the function's single-definition locals substituted by their definitions (transitively), and
     references to the library's double-SHA256 helper spelled `Hash`"""
-    defs = local_defs(fi)
+    defs = local_defs(fi) if defs is None else defs
 
     class T(ast.NodeTransformer):
         def visit_Name(self, n):
@@ -577,3 +599,110 @@ def resolved(fi, expr, repo=None, depth=6):
                 return n
         e = ast.fix_missing_locations(H().visit(e))
     return e
+
+
+def list_value(fi, name, upto=None):
+    """The list a local ends up holding when it is built by `name = []` / `name = [..]`, `for v in S: name.append(E)`,
+    `name.append(E)`, `name += L` / `name.extend(L)` at the top level of the function: one list expression (AST), in the
+    comprehension spelling.  None when the local is built any other way."""
+    cur = None
+    for s in fi.node.body:
+        if upto is not None and s is upto:
+            break
+        uses = any(isinstance(n, ast.Name) and n.id == name for n in ast.walk(s))
+        if not uses:
+            continue
+        if isinstance(s, ast.Assign) and len(s.targets) == 1 and isinstance(s.targets[0], ast.Name) and s.targets[0].id == name:
+            if any(isinstance(n, ast.Name) and n.id == name for n in ast.walk(s.value)):
+                return None
+            cur = s.value
+            continue
+        if cur is None:
+            return None
+        add = None
+        if isinstance(s, ast.Expr) and isinstance(s.value, ast.Call) and isinstance(s.value.func, ast.Attribute) and isinstance(s.value.func.value, ast.Name) \
+                and s.value.func.value.id == name and len(s.value.args) == 1:
+            if s.value.func.attr == 'append':
+                add = ast.List(elts=[s.value.args[0]], ctx=ast.Load())
+            elif s.value.func.attr == 'extend':
+                add = s.value.args[0]
+        elif isinstance(s, ast.AugAssign) and isinstance(s.target, ast.Name) and s.target.id == name and isinstance(s.op, ast.Add):
+            add = s.value
+        elif isinstance(s, ast.For) and not s.orelse and len(s.body) == 1:
+            b = s.body[0]
+            if isinstance(b, ast.Expr) and isinstance(b.value, ast.Call) and isinstance(b.value.func, ast.Attribute) and b.value.func.attr == 'append' \
+                    and isinstance(b.value.func.value, ast.Name) and b.value.func.value.id == name and len(b.value.args) == 1:
+                add = ast.ListComp(elt=b.value.args[0], generators=[ast.comprehension(target=s.target, iter=s.iter, ifs=[], is_async=0)])
+        elif isinstance(s, ast.Return):
+            break
+        if add is None:
+            return None
+        if isinstance(cur, ast.List) and not cur.elts:
+            cur = add
+        else:
+            cur = ast.BinOp(left=cur, op=ast.Add(), right=add)
+    if cur is not None:
+        cur = ast.parse(ast.unparse(ast.fix_missing_locations(cur)), mode='eval').body
+    return cur
+
+
+def _bound_renamed(e):
+    """comprehension variables renamed positionally (_v0, _v1, ..) so that spellings of the bound name do not matter"""
+    e = ast.parse(ast.unparse(e), mode='eval').body
+    k = [0]
+
+    def go(node):
+        for n in ast.walk(node):
+            if isinstance(n, (ast.ListComp, ast.GeneratorExp, ast.SetComp)):
+                for g in n.generators:
+                    if isinstance(g.target, ast.Name) and not g.target.id.startswith('_v'):
+                        old, new = g.target.id, '_v%d' % k[0]
+                        k[0] += 1
+                        for x in ast.walk(n):
+                            if isinstance(x, ast.Name) and x.id == old:
+                                x.id = new
+    go(e)
+    return e
+
+
+def value_match(repo, fi, expr, ref_text, defs=None):
+    """'same' | 'near' | 'other': is the value `expr` (locals resolved) the reference expression?  same = equal arithmetic
+    normal forms; near = built from the same names (a recognised variation: VIOLATED); other = cannot tell (UNDECIDED)"""
+    from .rules import canon_arith
+    if expr is None:
+        return 'other'
+    a = _bound_renamed(resolved(fi, expr, repo, defs=defs))
+    b = _bound_renamed(resolved(fi, ast.parse(ref_text, mode='eval').body, repo, defs=defs))
+    if canon_arith(a) == canon_arith(b):
+        return 'same'
+
+    def names(e):
+        return sorted({n.id for n in ast.walk(e) if isinstance(n, ast.Name)} | {n.attr for n in ast.walk(e) if isinstance(n, ast.Attribute)})
+    return 'near' if names(a) == names(b) else 'other'
+
+
+def verdict3(rule, key, site, repo, fi, expr, ref_text, what):
+    m = value_match(repo, fi, expr, ref_text)
+    shown = ast.unparse(resolved(fi, expr, repo))[:140] if expr is not None else None
+    if m == 'same':
+        rule.ok(key, site, '%s: `%s`' % (what, ref_text))
+    elif m == 'near':
+        rule.violated(key, site, '%s is `%s`; reference: `%s`' % (what, shown, ref_text))
+    else:
+        rule.undecided(key, site, '%s is written as `%s`, not recognisably the reference `%s`' % (what, shown, ref_text))
+    return m
+
+
+def returned_value(fi, skip=()):
+    """the single returned expression of a function (ignoring returns whose text is in `skip`); a returned local built
+    as a list by appends is given in its comprehension spelling"""
+    from .model import walk_no_nested, norm
+    rets = [n for n in walk_no_nested(fi.node) if isinstance(n, ast.Return) and n.value is not None and norm(n.value) not in skip]
+    if len(rets) != 1:
+        return None
+    v = rets[0].value
+    if isinstance(v, ast.Name):
+        lv = list_value(fi, v.id)
+        if lv is not None:
+            return lv
+    return v
